@@ -123,6 +123,8 @@ unsigned long long sexp_bignum_to_uint(sexp x) {
 sexp sexp_double_to_bignum (sexp ctx, double f) {
   int sign;
   sexp_gc_var3(res, scale, tmp);
+  if (isinf(f) || isnan(f))     /* the digit loop below would never end */
+    return sexp_user_exception(ctx, NULL, "can't convert a non-finite number to an exact integer", SEXP_NULL);
   sexp_gc_preserve3(ctx, res, scale, tmp);
   res = sexp_fixnum_to_bignum(ctx, SEXP_ZERO);
   scale = sexp_fixnum_to_bignum(ctx, SEXP_ONE);
